@@ -507,7 +507,8 @@ fn gen_sessions(cx: &mut Ctx, rng: &mut Rng, oauth: bool, exhaustive_perms: bool
 }
 
 fn key_precond(ins: &[(C, Map)], trim: C) -> (bool, bool, bool) {
-    // (full preconditions, contested, in known class: same key, same status, different status cid)
+    // (preconditions, contested, status-cid tie: same key, same status, different status cid —
+    //  the class on which the merge was order dependent before /repo ea75008)
     let mut per: BTreeMap<u64, Vec<(u8, C, u64)>> = BTreeMap::new();
     for (_, m) in ins {
         if let Map::Key(v) = m {
@@ -530,7 +531,7 @@ fn key_precond(ins: &[(C, Map)], trim: C) -> (bool, bool, bool) {
                 if a.0 == b.0 && a.1 != b.1 {
                     known = true;
                 }
-                if a.0 != b.0 {
+                if a.0 != b.0 || a.1 != b.1 {
                     contested = true;
                 }
             }
@@ -555,7 +556,7 @@ fn gen_keys(cx: &mut Ctx, rng: &mut Rng, all_perms: bool, n_random: u64) {
                         .map(|(r, s)| (base[p[r]], Map::Key(pal[*s].map(|(st, sc)| vec![(7u64, st, sc, 30 + st as u64)]).unwrap_or_default())))
                         .collect();
                     let (ok, cont, known) = key_precond(&ins, TRIM);
-                    emit(cx, if known { "key_1key_tie" } else { "key_1key" }, TRIM, &ins, true, ok && cont && !known);
+                    emit(cx, if known { "key_1key_tie" } else { "key_1key" }, TRIM, &ins, true, ok && cont);
                 }
             }
         }
@@ -591,7 +592,7 @@ fn gen_keys(cx: &mut Ctx, rng: &mut Rng, all_perms: bool, n_random: u64) {
         }
         let ins: Vec<(C, Map)> = cids.into_iter().zip(maps.into_iter().map(Map::Key)).collect();
         let (ok, cont, known) = key_precond(&ins, TRIM);
-        emit(cx, if known { "key_rand_tie" } else { "key_rand" }, TRIM, &ins, true, ok && cont && !known);
+        emit(cx, if known { "key_rand_tie" } else { "key_rand" }, TRIM, &ins, true, ok && cont);
     }
 }
 
@@ -638,7 +639,7 @@ fn main() {
     let args = parse_args();
     let mut rng = Rng::new(args.seed);
     let mut sink = Sink::new(&args, "KV.C11.Model", 150);
-    sink.rule = "per kind (session, oauth2 session, key-internal, audit log): EXHAUSTIVE one contested key x 3 replicas x every state of a 6/5-state lattice (+absent) with boundary cids around the trim cid (quick: one random assignment of change ids per combination for sessions, thorough: all 6), RANDOM 2-3 replicas x 1-3 keys incl. inconsistent payloads, dead/live mixes and equal change ids, BIG session sets whose union crosses SESSION_MAXIMUM=48 (some with equal issued_at) and audit logs crossing capacity 9. Every case runs the real merge_state for all self-merges, all ordered pairs, two absorption trees and all 12 (big: 4) order/grouping trees of three replicas. non-trivial = the property's preconditions hold (consistent per-id fields, no replica outside the changelog window, no known status_cid tie) and at least one key is held by two replicas in different states".into();
+    sink.rule = "per kind (session, oauth2 session, key-internal, audit log): EXHAUSTIVE one contested key x 3 replicas x every state of a 6/5-state lattice (+absent) with boundary cids around the trim cid (quick: one random assignment of change ids per combination for sessions, thorough: all 6), RANDOM 2-3 replicas x 1-3 keys incl. inconsistent payloads, dead/live mixes and equal change ids, BIG session sets whose union crosses SESSION_MAXIMUM=48 (some with equal issued_at) and audit logs crossing capacity 9. Every case runs the real merge_state for all self-merges, all ordered pairs, two absorption trees and all 12 (big: 4) order/grouping trees of three replicas. non-trivial = the property's preconditions hold (consistent per-id fields, no replica outside the changelog window) and at least one key is held by two replicas in different states (for keys: different status or different status_cid — the *_tie cases exercise independent revocations of one key)".into();
 
     let rt = tokio::runtime::Builder::new_current_thread().enable_all().build().expect("rt");
     let qs = rt.block_on(async { setup_test(TestConfiguration::default()).await });
@@ -647,10 +648,10 @@ fn main() {
     {
         let mut cx = Ctx { schema, sink };
         let t = args.thorough;
-        gen_sessions(&mut cx, &mut rng, false, t, if t { 6000 } else { 700 }, if t { 60 } else { 12 });
-        gen_sessions(&mut cx, &mut rng, true, false, if t { 3000 } else { 300 }, if t { 10 } else { 3 });
-        gen_keys(&mut cx, &mut rng, t, if t { 6000 } else { 500 });
-        gen_audit(&mut cx, &mut rng, if t { 4000 } else { 400 });
+        gen_sessions(&mut cx, &mut rng, false, t, if t { 3000 } else { 700 }, if t { 60 } else { 12 });
+        gen_sessions(&mut cx, &mut rng, true, false, if t { 1500 } else { 300 }, if t { 10 } else { 3 });
+        gen_keys(&mut cx, &mut rng, t, if t { 3000 } else { 500 });
+        gen_audit(&mut cx, &mut rng, if t { 2000 } else { 400 });
         cx.sink.finish();
     }
     drop(rtxn);
